@@ -176,7 +176,7 @@ func CharacterRatio(style_ pr.ElementStyle, cache pr.TextRatioCache, isCh bool, 
 		return 1
 	}
 
-	style := NewTextStyle(style_, true) // avoid recursion for letter-spacing and word-spacing properties
+	style := newFontMeasureStyle(style_) // avoid recursion for the properties that are lengths
 	key := style.cacheKey()
 	if f, ok := cache.Get(key, isCh); ok {
 		return f
